@@ -6,6 +6,7 @@ import (
 	"os"
 	"os/exec"
 	"path/filepath"
+	"runtime"
 	"strconv"
 	"strings"
 	"sync"
@@ -159,6 +160,12 @@ func (f *c07File) Sync() error {
 
 // c07Child: args = dir markers seed nops killAt killCre killHook
 func c07Child(args []string) {
+	if os.Getenv("C07_LOCK_THREAD") != "" {
+		// strace counts "when=N" per thread: keep every syscall of the main goroutine (all
+		// StoreLogs / DeleteRange / Open calls) on one thread so that the injected failures
+		// fall on a reproducible subsequence of its fsyncs
+		runtime.LockOSThread()
+	}
 	dir, markers := args[0], args[1]
 	seed, _ := strconv.ParseInt(args[2], 10, 64)
 	nops, _ := strconv.Atoi(args[3])
@@ -394,9 +401,17 @@ type c07Monitor struct {
 
 func (mo *c07Monitor) v(sig, desc string) {
 	// the same monitor serves C08 (rule R7 only)
-	if mo.only != "" && !strings.Contains(sig, mo.only) {
-		mo.c.Count("signals_for_other_properties", 1)
-		return
+	if mo.only != "" {
+		hit := false
+		for _, o := range strings.Split(mo.only, "|") {
+			if strings.Contains(sig, o) {
+				hit = true
+			}
+		}
+		if !hit {
+			mo.c.Count("signals_for_other_properties", 1)
+			return
+		}
 	}
 	if strings.HasPrefix(sig, "C07:") && mo.c.ID != "C07" {
 		sig = mo.c.ID + sig[3:]
@@ -694,9 +709,22 @@ func c07Scenario(c *evid.Ctx, seed int64, kills []string, nops int, only ...stri
 		case kill == "pinned":
 			killHook = "@pinned"
 		}
+		inject := ""
+		if strings.HasPrefix(kill, "inject:") {
+			inject = strings.TrimPrefix(kill, "inject:")
+		}
 		logf := filepath.Join(tmp, fmt.Sprintf("trace%d.log", life))
-		cmd := exec.Command("strace", "-f", "-y", "-s", "200", "-e", "trace=openat,pwrite64,fsync,fdatasync,unlinkat,unlink,renameat,renameat2,rename,fallocate,ftruncate,write,flock",
-			"-o", logf, os.Args[0], "-child", "c07-workload", dir, markers, fmt.Sprint(seed+int64(life)*977), fmt.Sprint(nops), killAt, killCre, killHook, killFS)
+		sargs := []string{"-f", "-y", "-s", "200", "-e", "trace=openat,pwrite64,fsync,fdatasync,unlinkat,unlink,renameat,renameat2,rename,fallocate,ftruncate,write,flock"}
+		if inject != "" {
+			// the kernel call fails with the injected error (strace fault injection): the
+			// production code sees a failing fsync on the real filesystem
+			sargs = append(sargs, "-e", "inject="+inject)
+		}
+		sargs = append(sargs, "-o", logf, os.Args[0], "-child", "c07-workload", dir, markers, fmt.Sprint(seed+int64(life)*977), fmt.Sprint(nops), killAt, killCre, killHook, killFS)
+		cmd := exec.Command("strace", sargs...)
+		if inject != "" {
+			cmd.Env = append(os.Environ(), "C07_LOCK_THREAD=1")
+		}
 		out, err := cmd.CombinedOutput()
 		res, perr := proc.Parse(logf, markers)
 		if perr != nil || res == nil || len(res.Events) == 0 {
@@ -709,7 +737,19 @@ func c07Scenario(c *evid.Ctx, seed int64, kills []string, nops int, only ...stri
 		}
 		c.Count("lifetimes", 1)
 		c.Count("trace_lines", int64(res.Lines))
-		if kill == "pinned" {
+		if inject != "" {
+			// errors are expected in this lifetime (a failing Open ends it: exit 6)
+			nf := 0
+			for _, e := range res.Events {
+				if (e.Name == "fsync" || e.Name == "fdatasync") && e.Failed {
+					nf++
+				}
+			}
+			c.Count("injected_fsync_failures", int64(nf))
+			if nf > 0 {
+				c.Distinct("rule_paths", "R1R2|commit-after-a-failed-fsync")
+			}
+		} else if kill == "pinned" {
 			if err != nil {
 				c.Violation("C07:child-failed", fmt.Sprintf("workload child failed: %v %.300s", err, out), mo.replay)
 				return
@@ -785,6 +825,16 @@ func runC07(c *evid.Ctx) {
 		// trace-level rules are evaluated: un-fsynced writes and the directory fsync)
 		{[]string{"pinned"}, 8, ":R"},
 		{[]string{"pinned", "pinned"}, 6, ":R"},
+		// failing fsyncs (of segment files and of the directory) injected into the kernel calls:
+		// the calls that hit them return errors, later ones succeed and are acknowledged - and
+		// must still satisfy R1 and R2 (only successful fsyncs count)
+		{[]string{"inject:fsync:error=EIO:when=1+2"}, 30, ":R1:|:R2:"},
+		{[]string{"inject:fsync:error=EIO:when=2+2"}, 30, ":R1:|:R2:"},
+		{[]string{"inject:fsync:error=EIO:when=2+3"}, 30, ":R1:|:R2:"},
+		{[]string{"inject:fsync:error=EIO:when=1+3"}, 30, ":R1:|:R2:"},
+		{[]string{"inject:fsync:error=EIO:when=3+4", "inject:fsync:error=EIO:when=1+5"}, 25, ":R1:|:R2:"},
+		{[]string{"inject:fsync:error=ENOSPC:when=5+2"}, 30, ":R1:|:R2:"},
+		{[]string{"inject:fsync:error=ENOSPC:when=4+2", "inject:fsync:error=EIO:when=3+2"}, 25, ":R1:|:R2:"},
 	}
 	if !quick(c) {
 		for i := 0; i < 70; i++ {
